@@ -37,3 +37,104 @@ def row_has_hit(data, y, cols, values, nv):
 
 def col_has_hit(data, x, rows, values, nv):
     return any(hit(data, y, x, values, nv) for y in range(rows))
+
+
+# ------------------------------------------------------------------ C08 terrain formulas (documented, named geographically)
+# row y-1 is "north" of row y; column x+1 is "east" of column x.
+def spec_slope(d, y, x, cx, cy):
+    # Horn (1981) third-order finite difference, as documented for xrspatial.slope
+    dz_dx = ((d[y - 1, x + 1] + 2 * d[y, x + 1] + d[y + 1, x + 1]) - (d[y - 1, x - 1] + 2 * d[y, x - 1] + d[y + 1, x - 1])) / (8 * cx)
+    dz_dy = ((d[y - 1, x - 1] + 2 * d[y - 1, x] + d[y - 1, x + 1]) - (d[y + 1, x - 1] + 2 * d[y + 1, x] + d[y + 1, x + 1])) / (8 * cy)
+    return atan(sqrt(dz_dx * dz_dx + dz_dy * dz_dy)) * 57.29578
+
+
+def spec_aspect(d, y, x):
+    dz_dx = ((d[y - 1, x + 1] + 2 * d[y, x + 1] + d[y + 1, x + 1]) - (d[y - 1, x - 1] + 2 * d[y, x - 1] + d[y + 1, x - 1])) / 8
+    dz_dy = ((d[y + 1, x - 1] + 2 * d[y + 1, x] + d[y + 1, x + 1]) - (d[y - 1, x - 1] + 2 * d[y - 1, x] + d[y - 1, x + 1])) / 8
+    if dz_dx == 0 and dz_dy == 0:
+        return -1.0
+    asp = atan2(dz_dy, -dz_dx) * (180 / pi)
+    if asp < 0:
+        return 90.0 - asp
+    if asp > 90.0:
+        return 360.0 - asp + 90.0
+    return 90.0 - asp
+
+
+def spec_curvature(d, y, x, cellsize):
+    # Zevenbergen & Thorne: -2 (D + E) * 100 with D, E the second differences along the two axes
+    dd = (d[y + 1, x] + d[y - 1, x]) / 2 - d[y, x]
+    ee = (d[y, x + 1] + d[y, x - 1]) / 2 - d[y, x]
+    return -2 * (dd + ee) * 100 / (cellsize * cellsize)
+
+
+def is_border(y, x, rows, cols):
+    return y == 0 or y == rows - 1 or x == 0 or x == cols - 1
+
+
+# spec functions that pyvc keeps opaque (uninterpreted symbol + definitional axiom instantiated on demand)
+OPAQUE = {"spec_slope", "spec_aspect", "spec_curvature"}
+
+
+# hillshade: documented illumination formula on central-difference gradients (axis 0 = rows)
+def spec_hillshade(d, y, x, azimuth, angle_altitude):
+    gx = (d[y + 1, x] - d[y - 1, x]) * 0.5
+    gy = (d[y, x + 1] - d[y, x - 1]) * 0.5
+    slope = pi / 2.0 - atan(sqrt(gx * gx + gy * gy))
+    aspect = atan2(-gx, gy)
+    azimuthrad = (360.0 - azimuth) * pi / 180.0
+    altituderad = angle_altitude * pi / 180.0
+    shaded = sin(altituderad) * sin(slope) + cos(altituderad) * cos(slope) * cos((azimuthrad - pi / 2.0) - aspect)
+    return (shaded + 1) / 2
+
+
+OPAQUE |= {"spec_hillshade"}
+
+
+# ------------------------------------------------------------------ C13 spectral indices (per cell, scalar)
+nan = float("nan")
+
+
+def ratio(num, den):
+    # "a zero denominator gives NaN, never +-inf, and NaN bands propagate"
+    if den != 0:
+        return num / den
+    return nan
+
+
+def spec_arvi(nir, red, blue):
+    # library formula (tests pin '+ blue' in the denominator; Kaufman & Tanre have '- blue': recorded observation)
+    return ratio(nir - 2.0 * red + blue, nir + 2.0 * red + blue)
+
+
+def spec_evi(nir, red, blue, c1, c2, soil_factor, gain):
+    return gain * ratio(nir - red, nir + c1 * red - c2 * blue + soil_factor)
+
+
+def spec_gci(nir, green):
+    if green != 0:
+        return nir / green - 1
+    return nan
+
+
+def spec_nd(a, b):
+    # normalised difference (NDVI, NBR, NBR2, NDMI)
+    return ratio(a - b, a + b)
+
+
+def spec_savi(nir, red, soil_factor):
+    # library formula as pinned by the QGIS fixture of the test-suite
+    return ratio(nir - red, (nir + red + soil_factor) * (1.0 + soil_factor))
+
+
+def spec_sipi(nir, red, blue):
+    return ratio(nir - blue, nir - red)
+
+
+def spec_ebbi(red, swir, tir):
+    return ratio(swir - red, 10 * sqrt(swir + tir))
+
+
+def spec_normalize(val, min_val, max_val, pixel_max, c, th):
+    norm = (val - min_val) / (max_val - min_val)
+    return 1 / (1 + exp(c * (th - norm))) * pixel_max
